@@ -254,6 +254,10 @@ func buildCorpus() (packets [][]byte, streams [][]byte) {
 		{Kind: "digest", A: 2, B: 1}, {Kind: "deliver", P: 0}, {Kind: "deliver", P: 0}, {Kind: "deliver", P: 0},
 		{Kind: "join", A: 2, B: 1},
 		{Kind: "leave", A: 0},
+		// digests that carry a node that has left (so that their neighbours name
+		// unknown nodes flagged as left)
+		{Kind: "digest", A: 2, B: 1}, {Kind: "deliver", P: 0}, {Kind: "deliver", P: 0}, {Kind: "deliver", P: 0},
+		{Kind: "digest", A: 1, B: 2}, {Kind: "deliver", P: 0}, {Kind: "deliver", P: 0}, {Kind: "deliver", P: 0},
 	}
 	for _, e := range script {
 		w.Replay(e)
